@@ -34,11 +34,29 @@ import (
 type RbfStep struct {
 	By  int   `json:"by"`
 	Fee int64 `json:"fee"`
+	// Cross: this bump and the next one (by the other party) are both issued
+	// before either closing_complete is delivered (two offers in flight in a
+	// later round, not only in the first one).
+	Cross bool `json:"cross,omitempty"`
+}
+
+// RbfRestart: both peers restart (reconnect) after the rounds so far: fresh state
+// machines, environments, musig sessions and message mappers on freshly loaded
+// channel objects; there is no link any more, so the observer reports final
+// balances from the start and nobody but the machine itself produces the
+// ChannelFlushed event (peer.chanObserver.FinalBalances, "restart case").
+type RbfRestart struct {
+	Initiator  int       `json:"initiator"`
+	InitFee    int64     `json:"init_fee"`
+	FirstOffer int       `json:"first_offer"`
+	Bumps      []RbfStep `json:"bumps"`
 }
 
 // RbfCase is one RBF close history.
 type RbfCase struct {
-	Initiator int `json:"initiator"` // who sends shutdown first, with InitFee as its ideal fee
+	// Initiator: who sends shutdown first, with InitFee as its ideal fee; 2 = both
+	// send shutdown at the same time (A's ideal fee is InitFee, B's DefaultFee[1]).
+	Initiator int   `json:"initiator"`
 	InitFee   int64 `json:"init_fee"`
 	// DefaultFee is each side's Environment.DefaultFeeRate (as absolute fee): the
 	// responder's first offer uses it.
@@ -49,6 +67,20 @@ type RbfCase struct {
 	Bumps      []RbfStep `json:"bumps"`
 	SA         string    `json:"script_a"`
 	SB         string    `json:"script_b"`
+	// Early: the first closing_complete reaches its receiver before that side has
+	// been flushed. If the receiver initiated the shutdown it waits in
+	// ChannelFlushing (the link's flush event is held back); if it is the
+	// shutdown responder it still waits in ShutdownPending (the post-send
+	// ShutdownComplete event is held back). Both windows stash the offer.
+	Early bool `json:"early,omitempty"`
+	// Upfront: both channels carry upfront shutdown scripts (equal to the case's
+	// delivery scripts); the initiator passes no explicit delivery address and
+	// NewDeliveryScript would hand out a different, fresh script.
+	Upfront bool `json:"upfront,omitempty"`
+	// MapperHeight is the chain height the message mapper stamps on a received
+	// shutdown (0 = negHeight). Compared with the channel's thaw height.
+	MapperHeight uint32      `json:"mapper_height,omitempty"`
+	Restart      *RbfRestart `json:"restart,omitempty"`
 	// EnvBlockHeight sets Environment.BlockHeight. lnd's peer never sets it
 	// (zero); non-zero values are not enumerated, only reachable through a
 	// hand-written replay file (probe of a latent inconsistency, see report).
@@ -64,9 +96,12 @@ func (rbfEstimator) EstimateFee(_ channeldb.ChannelType, _, _ *wire.TxOut, rate 
 
 // rbfObserver is the chancloser.ChanStateObserver backed by the real channel; the
 // two flags stand for the link's add-disabling (peer.chanObserver + channelLink).
+// noLink is the restart case of peer.chanObserver: without a link the balances
+// are final from the start.
 type rbfObserver struct {
 	ch                       *lnwallet.LightningChannel
 	inDisabled, outDisabled  bool
+	noLink                   bool
 	shutdownMarked, coopMark int
 }
 
@@ -87,7 +122,7 @@ func (o *rbfObserver) MarkShutdownSent(addr []byte, isInitiator bool) error {
 	return o.ch.MarkShutdownSent(channeldb.NewShutdownInfo(addr, isInitiator))
 }
 func (o *rbfObserver) FinalBalances() fn.Option[chancloser.ShutdownBalances] {
-	if o.inDisabled && o.outDisabled && o.ch.IsChannelClean() {
+	if (o.noLink || (o.inDisabled && o.outDisabled)) && o.ch.IsChannelClean() {
 		s := o.ch.StateSnapshot()
 		return fn.Some(chancloser.ShutdownBalances{LocalBalance: s.LocalBalance, RemoteBalance: s.RemoteBalance})
 	}
@@ -104,6 +139,12 @@ type rbfSide struct {
 	bcast   []*wire.MsgTx
 	flushed bool
 	tr      tracer
+	// holdFlush: the link has not reported the flush yet (the harness does not
+	// hand in ChannelFlushed until flush() is called).
+	holdFlush bool
+	// holdPost: post-send events are not processed yet (stashed until releasePost()).
+	holdPost bool
+	heldPost []chancloser.ProtocolEvent
 }
 
 // apply mirrors protofsm.StateMachine.applyEvents, synchronously.
@@ -129,7 +170,13 @@ func (s *rbfSide) apply(ev chancloser.ProtocolEvent) error {
 						return
 					}
 					s.outbox = append(s.outbox, de.Msgs...)
-					de.PostSendEvent.WhenSome(func(pe chancloser.ProtocolEvent) { queue = append(queue, pe) })
+					de.PostSendEvent.WhenSome(func(pe chancloser.ProtocolEvent) {
+						if s.holdPost {
+							s.heldPost = append(s.heldPost, pe)
+							return
+						}
+						queue = append(queue, pe)
+					})
 				case *protofsm.BroadcastTxn:
 					s.bcast = append(s.bcast, de.Tx)
 				}
@@ -142,12 +189,40 @@ func (s *rbfSide) apply(ev chancloser.ProtocolEvent) error {
 		s.tr.log("%s: %T: %v -> %v", partyName(s.idx), e, s.state, tr.NextState)
 		s.state = tr.NextState
 		// The peer sends ChannelFlushed once the machine waits in ChannelFlushing
-		// and the link reports the channel flushed (it is clean here).
-		if _, ok := s.state.(*chancloser.ChannelFlushing); ok && !s.flushed {
+		// and the link reports the channel flushed (it is clean here). Without a
+		// link (restart) nobody does.
+		if _, ok := s.state.(*chancloser.ChannelFlushing); ok && !s.flushed && !s.holdFlush && !s.obs.noLink {
 			s.flushed = true
-			snap := s.obs.ch.StateSnapshot()
-			queue = append(queue, &chancloser.ChannelFlushed{ShutdownBalances: chancloser.ShutdownBalances{
-				LocalBalance: snap.LocalBalance, RemoteBalance: snap.RemoteBalance}})
+			queue = append(queue, s.flushEvent())
+		}
+	}
+	return nil
+}
+
+func (s *rbfSide) flushEvent() chancloser.ProtocolEvent {
+	snap := s.obs.ch.StateSnapshot()
+	return &chancloser.ChannelFlushed{ShutdownBalances: chancloser.ShutdownBalances{
+		LocalBalance: snap.LocalBalance, RemoteBalance: snap.RemoteBalance}}
+}
+
+// flush: the link reports the flush now.
+func (s *rbfSide) flush() error {
+	s.holdFlush = false
+	if _, ok := s.state.(*chancloser.ChannelFlushing); ok && !s.flushed {
+		s.flushed = true
+		return s.apply(s.flushEvent())
+	}
+	return nil
+}
+
+// releasePost processes the stashed post-send events.
+func (s *rbfSide) releasePost() error {
+	s.holdPost = false
+	held := s.heldPost
+	s.heldPost = nil
+	for _, pe := range held {
+		if err := s.apply(pe); err != nil {
+			return err
 		}
 	}
 	return nil
@@ -161,28 +236,37 @@ func wireRoundTrip(m lnwire.Message) (lnwire.Message, error) {
 	return lnwire.ReadMessage(&b, 0)
 }
 
-func runRbf(p *pair, c RbfCase, tr tracer) verdict {
-	scripts := [2][]byte{deliveryScript(c.SA, 0), deliveryScript(c.SB, 1)}
-	v := verdict{}
-	tag := p.typName
-	fail := func(sig, f string, a ...any) verdict {
-		v.sig = "rbf:" + sig + ":" + tag
-		v.what = fmt.Sprintf(f, a...) + fmt.Sprintf(" [%s case %+v gross=%v dust=%v opener=%s]", p.src.Name(), c, p.gross, p.dust, partyName(p.opener))
-		v.class = "VIOLATION:" + sig
-		return v
+// rbfRun is the state of one RBF history.
+type rbfRun struct {
+	p       *pair
+	c       RbfCase
+	tr      tracer
+	scripts [2][]byte
+	raw     [2]int64
+	sides   [2]*rbfSide
+	rounds  int
+	classes []string
+	fail    func(sig, f string, a ...any) verdict
+}
+
+func isHarnessErr(err error) bool {
+	var he *harnessErr
+	return errors.As(err, &he)
+}
+
+// newSides builds both state machines the way peer.initRbfChanCloser does.
+func (r *rbfRun) newSides(restarted bool) {
+	p, c := r.p, r.c
+	height := uint32(negHeight)
+	if c.MapperHeight != 0 {
+		height = c.MapperHeight
 	}
-	defer func() {
-		p.ch[0].ResetState()
-		p.ch[1].ResetState()
-	}()
-	raw := [2]int64{int64(p.storedMsat[0] / 1000), int64(p.storedMsat[1] / 1000)}
-	var sides [2]*rbfSide
 	for i := 0; i < 2; i++ {
 		i := i
 		ch := p.ch[i]
 		peerPub := *p.ch[i].State().IdentityPub // the remote node's identity in this fixture
 		chanID := lnwire.NewChanIDFromOutPoint(ch.ChannelPoint())
-		obs := &rbfObserver{ch: ch}
+		obs := &rbfObserver{ch: ch, noLink: restarted}
 		thaw, _ := ch.AbsoluteThawHeight()
 		env := &chancloser.Environment{
 			ChainParams:    chaincfg.RegressionNetParams,
@@ -195,204 +279,404 @@ func runRbf(p *pair, c RbfCase, tr tracer) verdict {
 			DefaultFeeRate: chainfee.SatPerVByte(c.DefaultFee[i]),
 			ThawHeight:     fn.Some(thaw),
 			NewDeliveryScript: func() (lnwire.DeliveryAddress, error) {
-				return scripts[i], nil
+				if c.Upfront {
+					// a fresh wallet script, different from the upfront one
+					return deliveryScript([2]string{c.SA, c.SB}[i], i+2), nil
+				}
+				return r.scripts[i], nil
 			},
 			FeeEstimator: rbfEstimator{},
 			CloseSigner:  ch,
 			ChanObserver: obs,
 		}
+		if c.Upfront {
+			// peer.ChooseAddr(channel.{Remote,Local}UpfrontShutdownScript())
+			env.RemoteUpfrontShutdown = fn.Some(lnwire.DeliveryAddress(r.scripts[1-i]))
+			env.LocalUpfrontShutdown = fn.Some(lnwire.DeliveryAddress(r.scripts[i]))
+		}
 		if p.ct.IsTaproot() {
 			env.LocalMusigSession = peer.NewMusigChanCloser(ch)
 			env.RemoteMusigSession = peer.NewMusigChanCloser(ch)
 		}
-		sides[i] = &rbfSide{idx: i, state: &chancloser.ChannelActive{}, env: env, obs: obs, tr: tr,
-			mapper: chancloser.NewRbfMsgMapper(func() uint32 { return negHeight }, chanID, peerPub)}
+		r.sides[i] = &rbfSide{idx: i, state: &chancloser.ChannelActive{}, env: env, obs: obs, tr: r.tr,
+			mapper: chancloser.NewRbfMsgMapper(func() uint32 { return height }, chanID, peerPub)}
 	}
-	// deliver moves the oldest message of from's outbox to the other side.
-	deliver := func(from int) (lnwire.Message, error) {
-		s, d := sides[from], sides[1-from]
-		m := s.outbox[0]
-		s.outbox = s.outbox[1:]
-		mm, err := wireRoundTrip(m)
-		if err != nil {
-			return m, herr("wire round trip of %T: %v", m, err)
-		}
-		ev := d.mapper.MapMsg(msgmux.PeerMsg{Message: mm, PeerPub: d.env.ChanPeer})
-		if ev.IsNone() {
-			return m, herr("message %T not mapped to an event", m)
-		}
-		return m, d.apply(ev.UnsafeFromSome())
-	}
-	isHarness := func(err error) bool {
-		var he *harnessErr
-		return errors.As(err, &he)
-	}
+}
 
+// deliverMsg hands one wire message to party `to`.
+func (r *rbfRun) deliverMsg(to int, m lnwire.Message) error {
+	d := r.sides[to]
+	mm, err := wireRoundTrip(m)
+	if err != nil {
+		return herr("wire round trip of %T: %v", m, err)
+	}
+	ev := d.mapper.MapMsg(msgmux.PeerMsg{Message: mm, PeerPub: d.env.ChanPeer})
+	if ev.IsNone() {
+		return herr("message %T not mapped to an event", m)
+	}
+	return d.apply(ev.UnsafeFromSome())
+}
+
+// deliver moves the oldest message of from's outbox to the other side.
+func (r *rbfRun) deliver(from int) (lnwire.Message, error) {
+	s := r.sides[from]
+	m := s.outbox[0]
+	s.outbox = s.outbox[1:]
+	return m, r.deliverMsg(1-from, m)
+}
+
+// offer is a closing_complete taken off its sender's outbox.
+type rbfOffer struct {
+	cc  *lnwire.ClosingComplete
+	ref refResult
+}
+
+// takeOffer pops closer's pending closing_complete (if any) and checks it
+// against what was asked for. A nil offer with a class means "no offer, and
+// rightly so".
+func (r *rbfRun) takeOffer(closer int, fee int64) (*rbfOffer, string, *verdict) {
+	p := r.p
+	cs := r.sides[closer]
+	ref := refClose(p.gross, p.dust, fee, closer, r.scripts)
+	if len(cs.outbox) == 0 {
+		// no offer was made
+		if r.raw[closer] >= fee {
+			fv := r.fail("honest-offer-missing", "%s can pay fee %d from its balance %d but made no offer (state %v)", partyName(closer), fee, r.raw[closer], cs.state)
+			return nil, "", &fv
+		}
+		if ref.reason == "cannot-afford" {
+			return nil, "no-offer:cannot-afford", nil
+		}
+		return nil, "no-offer:conservative", nil // fee above the stored balance but within balance+commit fee
+	}
+	cc, ok := cs.outbox[0].(*lnwire.ClosingComplete)
+	if !ok {
+		fv := r.fail("unexpected-message", "%s sent %T instead of closing_complete", partyName(closer), cs.outbox[0])
+		return nil, "", &fv
+	}
+	cs.outbox = cs.outbox[1:]
+	if int64(cc.FeeSatoshis) != fee || !bytes.Equal(cc.CloserScript, r.scripts[closer]) || !bytes.Equal(cc.CloseeScript, r.scripts[1-closer]) {
+		fv := r.fail("offer-mismatch", "closing_complete fee=%d scripts %x/%x, asked fee %d", cc.FeeSatoshis, cc.CloserScript, cc.CloseeScript, fee)
+		return nil, "", &fv
+	}
+	if !ref.ok {
+		fv := r.fail("offered-"+ref.reason, "%s offered fee %d which the reference refuses (%s)", partyName(closer), fee, ref.reason)
+		return nil, "", &fv
+	}
+	return &rbfOffer{cc: cc, ref: ref}, "", nil
+}
+
+func (r *rbfRun) rejected(closer int, fee int64, err error) *verdict {
+	if isHarnessErr(err) {
+		fv := r.fail("harness", "%v", err)
+		fv.sig = ""
+		return &fv
+	}
+	fv := r.fail("honest-offer-rejected", "%s rejected %s's closing_complete(fee=%d): %v", partyName(1-closer), partyName(closer), fee, err)
+	return &fv
+}
+
+// finishRound: the closee has processed the offer (nb = its number of broadcasts
+// before); carry the closing_sig back and judge the two transactions.
+func (r *rbfRun) finishRound(closer int, fee int64, of *rbfOffer, nb int) (string, *verdict) {
+	p := r.p
+	cs, ce := r.sides[closer], r.sides[1-closer]
+	if len(ce.bcast) != nb+1 || len(ce.outbox) == 0 {
+		fv := r.fail("closee-no-tx", "%s accepted the offer without broadcasting/answering (broadcasts %d, outbox %d, state %v)", partyName(1-closer), len(ce.bcast)-nb, len(ce.outbox), ce.state)
+		return "", &fv
+	}
+	nb2 := len(cs.bcast)
+	// the closing_sig is the newest ClosingSig in the closee's outbox; other
+	// entries may be its own pending offer
+	k := -1
+	for j, m := range ce.outbox {
+		if _, ok := m.(*lnwire.ClosingSig); ok {
+			k = j
+		}
+	}
+	if k < 0 {
+		fv := r.fail("closee-no-sig", "%s did not send closing_sig", partyName(1-closer))
+		return "", &fv
+	}
+	sigMsg := ce.outbox[k]
+	ce.outbox = append(ce.outbox[:k:k], ce.outbox[k+1:]...)
+	if err := r.deliverMsg(closer, sigMsg); err != nil {
+		fv := r.fail("honest-sig-rejected", "%s rejected %s's closing_sig(fee=%d): %v", partyName(closer), partyName(1-closer), fee, err)
+		return "", &fv
+	}
+	if len(cs.bcast) != nb2+1 {
+		fv := r.fail("closer-no-tx", "%s did not broadcast after closing_sig", partyName(closer))
+		return "", &fv
+	}
+	t1, t2 := ce.bcast[len(ce.bcast)-1], cs.bcast[len(cs.bcast)-1]
+	if !bytes.Equal(txBytesNoWitness(t1), txBytesNoWitness(t2)) {
+		fv := r.fail("tx-not-identical", "closer %s and closee built different transactions for fee %d: closee=%x closer=%x", partyName(closer), fee, txBytesNoWitness(t1), txBytesNoWitness(t2))
+		return "", &fv
+	}
+	seq, lock := maxRBFSeq, of.cc.LockTime
+	if sig, what := p.checkTxAgainstRef(t1, of.ref, fee, &seq, &lock); sig != "" {
+		fv := r.fail(sig, "closer %s fee %d: %s", partyName(closer), fee, what)
+		return "", &fv
+	}
+	for k, t := range []*wire.MsgTx{t1, t2} {
+		if k == 1 && bytes.Equal(txBytesFull(t1), txBytesFull(t2)) {
+			continue
+		}
+		if err := p.engineVerdict(t); err != nil {
+			fv := r.fail("script-invalid", "RBF closing tx (closer %s, fee %d) fails the script interpreter: %v", partyName(closer), fee, err)
+			return "", &fv
+		}
+	}
+	r.rounds++
+	r.tr.log("round ok: closer %s fee %d outputs %s", partyName(closer), fee, outsKey(t1.TxOut))
+	return "closed:" + of.ref.shape(), nil
+}
+
+// judgeRound carries closer's pending closing_complete (if any) to the closee
+// and the closing_sig back, and judges the two transactions.
+func (r *rbfRun) judgeRound(closer int, fee int64) (string, *verdict) {
+	of, cl, fv := r.takeOffer(closer, fee)
+	if fv != nil || of == nil {
+		return cl, fv
+	}
+	nb := len(r.sides[1-closer].bcast)
+	if err := r.deliverMsg(1-closer, of.cc); err != nil {
+		return "", r.rejected(closer, fee, err)
+	}
+	return r.finishRound(closer, fee, of, nb)
+}
+
+// phase: shutdown exchange, first offers, bumps. Returns a verdict to stop with.
+func (r *rbfRun) phase(ini int, initFee int64, first int, early bool, bumps []RbfStep) *verdict {
+	c, sides := r.c, r.sides
+	ret := func(fv verdict) *verdict { return &fv }
+	stop := func(fv *verdict) *verdict {
+		if fv.sig == "" {
+			return &verdict{class: "harness-error", what: fv.what}
+		}
+		return fv
+	}
+	// ideal fee each side states when it sends shutdown on its own initiative
+	firstFee := [2]int64{c.DefaultFee[0], c.DefaultFee[1]}
+	sendShutdown := func(i int, fee int64) *verdict {
+		addr := fn.Some(lnwire.DeliveryAddress(r.scripts[i]))
+		if c.Upfront {
+			addr = fn.None[lnwire.DeliveryAddress]()
+		}
+		if err := sides[i].apply(&chancloser.SendShutdown{DeliveryAddr: addr, IdealFeeRate: chainfee.SatPerVByte(fee)}); err != nil {
+			return ret(r.fail("shutdown-error", "%s: SendShutdown: %v", partyName(i), err))
+		}
+		if len(sides[i].outbox) != 1 {
+			return ret(r.fail("shutdown-error", "%s did not send shutdown", partyName(i)))
+		}
+		firstFee[i] = fee
+		return nil
+	}
+	S, R := first, 1-first
+	if early {
+		if ini == R || ini == 2 {
+			sides[R].holdFlush = true // R will wait in ChannelFlushing
+		} else {
+			sides[R].holdPost = true // R (shutdown responder) will wait in ShutdownPending
+		}
+	}
 	// --- shutdown exchange
-	ini := c.Initiator
-	if err := sides[ini].apply(&chancloser.SendShutdown{
-		DeliveryAddr: fn.Some(lnwire.DeliveryAddress(scripts[ini])),
-		IdealFeeRate: chainfee.SatPerVByte(c.InitFee),
-	}); err != nil {
-		return fail("shutdown-error", "%s: SendShutdown: %v", partyName(ini), err)
+	switch ini {
+	case 2:
+		if fv := sendShutdown(0, initFee); fv != nil {
+			return fv
+		}
+		if fv := sendShutdown(1, c.DefaultFee[1]); fv != nil {
+			return fv
+		}
+		// S learns R's shutdown first (so that with `early` S is flushed first)
+		for _, from := range []int{R, S} {
+			if _, err := r.deliver(from); err != nil {
+				return ret(r.fail("shutdown-error", "%s: shutdown received: %v", partyName(1-from), err))
+			}
+		}
+	default:
+		if fv := sendShutdown(ini, initFee); fv != nil {
+			return fv
+		}
+		if _, err := r.deliver(ini); err != nil {
+			return ret(r.fail("shutdown-error", "%s: shutdown received: %v", partyName(1-ini), err))
+		}
+		if len(sides[1-ini].outbox) < 1 {
+			return ret(r.fail("shutdown-error", "%s did not answer shutdown", partyName(1-ini)))
+		}
+		if _, err := r.deliver(1 - ini); err != nil {
+			return ret(r.fail("shutdown-error", "%s: shutdown reply received: %v", partyName(ini), err))
+		}
 	}
-	if len(sides[ini].outbox) != 1 {
-		return fail("shutdown-error", "%s did not send shutdown", partyName(ini))
-	}
-	if _, err := deliver(ini); err != nil {
-		return fail("shutdown-error", "%s: shutdown received: %v", partyName(1-ini), err)
-	}
-	if len(sides[1-ini].outbox) < 1 {
-		return fail("shutdown-error", "%s did not answer shutdown", partyName(1-ini))
-	}
-	if _, err := deliver(1 - ini); err != nil {
-		return fail("shutdown-error", "%s: shutdown reply received: %v", partyName(ini), err)
+	// --- the early window: S's first offer reaches R before R is flushed
+	var (
+		earlyOffer *rbfOffer
+		earlyClass string
+		earlyNb    int
+	)
+	if early {
+		switch sides[R].state.(type) {
+		case *chancloser.ChannelFlushing, *chancloser.ShutdownPending:
+		default:
+			return ret(r.fail("no-early-window", "%s is in %v although its flush / post-send event is held back", partyName(R), sides[R].state))
+		}
+		if _, ok := sides[S].state.(*chancloser.ClosingNegotiation); !ok {
+			return ret(r.fail("no-negotiation", "%s is in %v after the shutdown exchange on a clean channel", partyName(S), sides[S].state))
+		}
+		of, cl, fv := r.takeOffer(S, firstFee[S])
+		if fv != nil {
+			return fv
+		}
+		earlyOffer, earlyClass, earlyNb = of, cl, len(sides[R].bcast)
+		if of != nil {
+			r.tr.log("early: %s's closing_complete(fee=%d) reaches %s in %v", partyName(S), firstFee[S], partyName(R), sides[R].state)
+			if err := r.deliverMsg(R, of.cc); err != nil {
+				return stop(r.rejected(S, firstFee[S], err))
+			}
+		}
+		// now R's link reports the flush / its post-send event is processed
+		var err error
+		if sides[R].holdFlush {
+			err = sides[R].flush()
+		} else {
+			err = sides[R].releasePost()
+		}
+		if err != nil {
+			if of != nil {
+				return stop(r.rejected(S, firstFee[S], err))
+			}
+			return ret(r.fail("shutdown-error", "%s: flush: %v", partyName(R), err))
+		}
 	}
 	for i := 0; i < 2; i++ {
 		if _, ok := sides[i].state.(*chancloser.ClosingNegotiation); !ok {
-			return fail("no-negotiation", "%s is in %v after the shutdown exchange on a clean channel", partyName(i), sides[i].state)
+			return ret(r.fail("no-negotiation", "%s is in %v after the shutdown exchange on a clean channel", partyName(i), sides[i].state))
 		}
 	}
 
 	// --- rounds
-	firstFee := [2]int64{}
-	firstFee[ini] = c.InitFee
-	firstFee[1-ini] = c.DefaultFee[1-ini]
-	rounds := 0
-	var classes []string
-	// judgeRound carries closer's pending closing_complete (if any) to the closee
-	// and the closing_sig back, and judges the two transactions.
-	judgeRound := func(closer int, fee int64) (string, *verdict) {
-		cs, ce := sides[closer], sides[1-closer]
-		ref := refClose(p.gross, p.dust, fee, closer, scripts)
-		if len(cs.outbox) == 0 {
-			// no offer was made
-			if raw[closer] >= fee {
-				fv := fail("honest-offer-missing", "%s can pay fee %d from its balance %d but made no offer (state %v)", partyName(closer), fee, raw[closer], cs.state)
-				return "", &fv
+	note := func(who int, cl string) { r.classes = append(r.classes, fmt.Sprintf("%s:%s", partyName(who), cl)) }
+	for _, closer := range []int{S, R} {
+		var (
+			cl string
+			fv *verdict
+		)
+		if early && closer == S {
+			cl = earlyClass
+			if earlyOffer != nil {
+				cl, fv = r.finishRound(S, firstFee[S], earlyOffer, earlyNb)
 			}
-			if ref.reason == "cannot-afford" {
-				return "no-offer:cannot-afford", nil
-			}
-			return "no-offer:conservative", nil // fee above the stored balance but within balance+commit fee
+		} else {
+			cl, fv = r.judgeRound(closer, firstFee[closer])
 		}
-		cc, ok := cs.outbox[0].(*lnwire.ClosingComplete)
-		if !ok {
-			fv := fail("unexpected-message", "%s sent %T instead of closing_complete", partyName(closer), cs.outbox[0])
-			return "", &fv
-		}
-		if int64(cc.FeeSatoshis) != fee || !bytes.Equal(cc.CloserScript, scripts[closer]) || !bytes.Equal(cc.CloseeScript, scripts[1-closer]) {
-			fv := fail("offer-mismatch", "closing_complete fee=%d scripts %x/%x, asked fee %d", cc.FeeSatoshis, cc.CloserScript, cc.CloseeScript, fee)
-			return "", &fv
-		}
-		if !ref.ok {
-			fv := fail("offered-"+ref.reason, "%s offered fee %d which the reference refuses (%s)", partyName(closer), fee, ref.reason)
-			return "", &fv
-		}
-		nb := len(ce.bcast)
-		if _, err := deliver(closer); err != nil {
-			if isHarness(err) {
-				fv := fail("harness", "%v", err)
-				fv.sig = ""
-				return "", &fv
-			}
-			fv := fail("honest-offer-rejected", "%s rejected %s's closing_complete(fee=%d): %v", partyName(1-closer), partyName(closer), fee, err)
-			return "", &fv
-		}
-		if len(ce.bcast) != nb+1 || len(ce.outbox) == 0 {
-			fv := fail("closee-no-tx", "%s accepted the offer without broadcasting/answering (broadcasts %d, outbox %d)", partyName(1-closer), len(ce.bcast)-nb, len(ce.outbox))
-			return "", &fv
-		}
-		nb2 := len(cs.bcast)
-		// the closing_sig is the newest message in the closee's outbox; older
-		// entries may be its own pending offer
-		k := -1
-		for j, m := range ce.outbox {
-			if _, ok := m.(*lnwire.ClosingSig); ok {
-				k = j
-			}
-		}
-		if k < 0 {
-			fv := fail("closee-no-sig", "%s did not send closing_sig", partyName(1-closer))
-			return "", &fv
-		}
-		sigMsg := ce.outbox[k]
-		ce.outbox = append(ce.outbox[:k:k], ce.outbox[k+1:]...)
-		ce.outbox = append([]lnwire.Message{sigMsg}, ce.outbox...)
-		if _, err := deliver(1 - closer); err != nil {
-			fv := fail("honest-sig-rejected", "%s rejected %s's closing_sig(fee=%d): %v", partyName(closer), partyName(1-closer), fee, err)
-			return "", &fv
-		}
-		if len(cs.bcast) != nb2+1 {
-			fv := fail("closer-no-tx", "%s did not broadcast after closing_sig", partyName(closer))
-			return "", &fv
-		}
-		t1, t2 := ce.bcast[len(ce.bcast)-1], cs.bcast[len(cs.bcast)-1]
-		if !bytes.Equal(txBytesNoWitness(t1), txBytesNoWitness(t2)) {
-			fv := fail("tx-not-identical", "closer %s and closee built different transactions for fee %d: closee=%x closer=%x", partyName(closer), fee, txBytesNoWitness(t1), txBytesNoWitness(t2))
-			return "", &fv
-		}
-		seq, lock := maxRBFSeq, cc.LockTime
-		if sig, what := p.checkTxAgainstRef(t1, ref, fee, &seq, &lock); sig != "" {
-			fv := fail(sig, "closer %s fee %d: %s", partyName(closer), fee, what)
-			return "", &fv
-		}
-		for k, t := range []*wire.MsgTx{t1, t2} {
-			if k == 1 && bytes.Equal(txBytesFull(t1), txBytesFull(t2)) {
-				continue
-			}
-			if err := p.engineVerdict(t); err != nil {
-				fv := fail("script-invalid", "RBF closing tx (closer %s, fee %d) fails the script interpreter: %v", partyName(closer), fee, err)
-				return "", &fv
-			}
-		}
-		rounds++
-		tr.log("round ok: closer %s fee %d outputs %s", partyName(closer), fee, outsKey(t1.TxOut))
-		return "closed:" + ref.shape(), nil
-	}
-	order := []int{c.FirstOffer, 1 - c.FirstOffer}
-	for _, closer := range order {
-		cl, fv := judgeRound(closer, firstFee[closer])
 		if fv != nil {
-			if fv.sig == "" {
-				return verdict{class: "harness-error", what: fv.what}
+			return stop(fv)
+		}
+		note(closer, cl)
+	}
+	for k := 0; k < len(bumps); k++ {
+		group := []RbfStep{bumps[k]}
+		if bumps[k].Cross && k+1 < len(bumps) && bumps[k+1].By != bumps[k].By {
+			group = append(group, bumps[k+1])
+			k++
+		}
+		for gi, b := range group {
+			err := sides[b.By].apply(&chancloser.SendOfferEvent{TargetFeeRate: chainfee.SatPerVByte(b.Fee)})
+			if err != nil {
+				ref := refClose(r.p.gross, r.p.dust, b.Fee, b.By, r.scripts)
+				if !ref.ok && ref.reason == "no-outputs" && r.raw[b.By] >= b.Fee && gi == len(group)-1 && len(group) == 1 {
+					note(b.By, "refused:no-outputs")
+					return nil // the machine reported an error; the history ends here
+				}
+				return ret(r.fail("offer-error", "%s: SendOfferEvent(fee=%d): %v", partyName(b.By), b.Fee, err))
 			}
+		}
+		for _, b := range group {
+			cl, fv := r.judgeRound(b.By, b.Fee)
+			if fv != nil {
+				return stop(fv)
+			}
+			note(b.By, cl)
+		}
+	}
+	return nil
+}
+
+func runRbf(p *pair, c RbfCase, tr tracer) verdict {
+	v := verdict{}
+	tag := p.typName
+	r := &rbfRun{p: p, c: c, tr: tr}
+	r.scripts = [2][]byte{deliveryScript(c.SA, 0), deliveryScript(c.SB, 1)}
+	r.fail = func(sig, f string, a ...any) verdict {
+		v.sig = "rbf:" + sig + ":" + tag
+		v.what = fmt.Sprintf(f, a...) + fmt.Sprintf(" [%s case %+v gross=%v dust=%v opener=%s]", p.src.Name(), c, p.gross, p.dust, partyName(p.opener))
+		v.class = "VIOLATION:" + sig
+		return v
+	}
+	defer func() {
+		p.ch[0].ResetState()
+		p.ch[1].ResetState()
+	}()
+	r.raw = [2]int64{int64(p.storedMsat[0] / 1000), int64(p.storedMsat[1] / 1000)}
+	r.newSides(false)
+	if fv := r.phase(c.Initiator, c.InitFee, c.FirstOffer, c.Early, c.Bumps); fv != nil {
+		return *fv
+	}
+	if rs := c.Restart; rs != nil {
+		// reconnect: the channels are loaded afresh, new machines without a link
+		tr.log("restart: both peers reconnect (%d rounds so far)", r.rounds)
+		p.ch[0].ResetState()
+		p.ch[1].ResetState()
+		r.classes = append(r.classes, "|restart|")
+		r.newSides(true)
+		if fv := r.phase(rs.Initiator, rs.InitFee, rs.FirstOffer, false, rs.Bumps); fv != nil {
 			return *fv
 		}
-		classes = append(classes, fmt.Sprintf("%s:%s", partyName(closer), cl))
 	}
-	for _, b := range c.Bumps {
-		s := sides[b.By]
-		err := s.apply(&chancloser.SendOfferEvent{TargetFeeRate: chainfee.SatPerVByte(b.Fee)})
-		if err != nil {
-			ref := refClose(p.gross, p.dust, b.Fee, b.By, scripts)
-			if !ref.ok && ref.reason == "no-outputs" && raw[b.By] >= b.Fee {
-				classes = append(classes, fmt.Sprintf("%s:refused:no-outputs", partyName(b.By)))
-				break // the machine reported an error; the history ends here
-			}
-			return fail("offer-error", "%s: SendOfferEvent(fee=%d): %v", partyName(b.By), b.Fee, err)
+	v.class = fmt.Sprintf("%v", r.classes)
+	if r.rounds > 0 {
+		flags := ""
+		if c.Early {
+			flags += "e"
 		}
-		cl, fv := judgeRound(b.By, b.Fee)
-		if fv != nil {
-			if fv.sig == "" {
-				return verdict{class: "harness-error", what: fv.what}
-			}
-			return *fv
+		if c.Upfront {
+			flags += "u"
 		}
-		classes = append(classes, fmt.Sprintf("%s:%s", partyName(b.By), cl))
-	}
-	v.class = fmt.Sprintf("%v", classes)
-	if rounds > 0 {
-		v.cell = fmt.Sprintf("rbf|%s|open%s|init%s|first%s|%s-%s|%v", p.typName, partyName(p.opener), partyName(ini), partyName(c.FirstOffer), c.SA, c.SB, classes)
+		if c.MapperHeight != 0 {
+			flags += "h"
+		}
+		v.cell = fmt.Sprintf("rbf|%s|open%s|init%d|first%s|%s|%s-%s|%v", p.typName, partyName(p.opener), c.Initiator, partyName(c.FirstOffer), flags, c.SA, c.SB, r.classes)
 	}
 	return v
 }
 
-// rbfCases: fee ladders for one pair, both directions.
-func rbfCases(p0 chanmc.Params, gross, dust [2]int64, thorough bool) []RbfCase {
+// rbfCases: fee ladders for one pair, both directions. thaw is the channel's
+// absolute thaw height (0 = none); rich says that both parties can pay fees of a
+// few thousand satoshi.
+func rbfCases(p0 chanmc.Params, gross, dust [2]int64, thorough bool, thaw uint32) []RbfCase {
 	var out []RbfCase
 	scripts := [][2]string{{"p2wkh", "p2wsh"}, {"p2tr", "p2wkh"}, {"p2wsh", "p2tr"}}
 	n := 0
+	low := -1
+	for x := 0; x < 2; x++ {
+		if gross[x] < 200_000 {
+			low = x
+		}
+	}
+	// walk: party x's fee through its balance and dust neighbourhoods, then (from
+	// the CloseErr state the unpayable fees leave it in) a payable offer again and
+	// an offer of the other party.
+	walk := func(x int) []RbfStep {
+		var l []RbfStep
+		g := gross[x]
+		for _, f := range []int64{g - dust[x] - 1, g - dust[x], g - dust[x] + 1, g - 1, g, g + 1} {
+			if f >= 0 {
+				l = append(l, RbfStep{By: x, Fee: f})
+			}
+		}
+		return append(l, RbfStep{By: x, Fee: 0}, RbfStep{By: 1 - x, Fee: 1500})
+	}
 	for ini := 0; ini < 2; ini++ {
 		for first := 0; first < 2; first++ {
 			// ladders: a rising ladder per side, fees straddling what each side can pay
@@ -401,16 +685,8 @@ func rbfCases(p0 chanmc.Params, gross, dust [2]int64, thorough bool) []RbfCase {
 				[]RbfStep{{By: ini, Fee: 1500}, {By: 1 - ini, Fee: 2500}, {By: ini, Fee: 20_000}},
 			)
 			for x := 0; x < 2; x++ {
-				g := gross[x]
-				if g < 200_000 {
-					// low party: walk its fee through balance and dust neighbourhoods
-					var l []RbfStep
-					for _, f := range []int64{g - dust[x] - 1, g - dust[x], g - dust[x] + 1, g - 1, g, g + 1} {
-						if f >= 0 {
-							l = append(l, RbfStep{By: x, Fee: f})
-						}
-					}
-					ladders = append(ladders, l)
+				if gross[x] < 200_000 {
+					ladders = append(ladders, walk(x))
 				}
 			}
 			for li, l := range ladders {
@@ -425,6 +701,99 @@ func rbfCases(p0 chanmc.Params, gross, dust [2]int64, thorough bool) []RbfCase {
 	}
 	// zero-fee and one-sat first offers
 	out = append(out, RbfCase{Initiator: 0, InitFee: 0, DefaultFee: [2]int64{1, 1}, FirstOffer: 1, SA: "p2wkh", SB: "p2tr"})
+
+	// --- windows, roles and restarts (audit round). First fees: what both can pay.
+	mk := func(ini, first int) RbfCase {
+		sc := scripts[n%len(scripts)]
+		n++
+		c := RbfCase{Initiator: ini, InitFee: 1000, DefaultFee: [2]int64{700, 800}, FirstOffer: first, SA: sc[0], SB: sc[1]}
+		if low >= 0 {
+			c.InitFee, c.DefaultFee = 2, [2]int64{1, 3}
+		}
+		return c
+	}
+	short := func(first int) []RbfStep {
+		if low >= 0 {
+			return []RbfStep{{By: 1 - low, Fee: 900}, {By: low, Fee: 0}}
+		}
+		return []RbfStep{{By: first, Fee: 1500}, {By: 1 - first, Fee: 2500}}
+	}
+	// (E) the first offer arrives before its receiver is flushed: receiver is the
+	// shutdown initiator (ChannelFlushing window), the responder (ShutdownPending
+	// window), or both sent shutdown at once.
+	for ini := 0; ini < 3; ini++ {
+		for first := 0; first < 2; first++ {
+			if !thorough && low >= 0 && ini == 2 && first != low {
+				continue
+			}
+			c := mk(ini, first)
+			c.Early, c.Bumps = true, short(first)
+			out = append(out, c)
+		}
+	}
+	// (B) both parties send shutdown at the same time
+	for first := 0; first < 2; first++ {
+		if !thorough && low >= 0 && first == low {
+			continue
+		}
+		c := mk(2, first)
+		c.Bumps = short(1 - first)
+		out = append(out, c)
+	}
+	// (X) two bumps in flight at the same time, twice, in both delivery orders
+	if low < 0 {
+		for first := 0; first < 2; first++ {
+			c := mk(first, first)
+			c.Bumps = []RbfStep{{By: first, Fee: 1500, Cross: true}, {By: 1 - first, Fee: 2500}, {By: 1 - first, Fee: 3000, Cross: true}, {By: first, Fee: 3500}}
+			out = append(out, c)
+		}
+	} else {
+		c := mk(low, 1-low)
+		c.Bumps = []RbfStep{{By: low, Fee: 0, Cross: true}, {By: 1 - low, Fee: 900}, {By: 1 - low, Fee: 1100, Cross: true}, {By: low, Fee: 1}}
+		out = append(out, c)
+	}
+	// (R) reconnect after some rounds: new machines without a link, the shutdown
+	// exchange is repeated (by either party or both), offers continue
+	for k, rs := range []RbfRestart{
+		{Initiator: 1, InitFee: 2000, FirstOffer: 1, Bumps: []RbfStep{{By: 0, Fee: 3000}, {By: 1, Fee: 3500}}},
+		{Initiator: 0, InitFee: 1200, FirstOffer: 1},
+		{Initiator: 2, InitFee: 1300, FirstOffer: 0, Bumps: []RbfStep{{By: 1, Fee: 1700}}},
+	} {
+		if !thorough && low >= 0 && k == 1 {
+			continue
+		}
+		rs := rs
+		c := mk(k%2, (k/2)%2)
+		if low >= 0 {
+			// the low party walks its fee after the restart
+			rs.InitFee = 2
+			rs.Bumps = walk(low)
+		} else if k == 0 {
+			c.Bumps = []RbfStep{{By: 0, Fee: 1500}}
+		}
+		c.Restart = &rs
+		out = append(out, c)
+	}
+	// (U) upfront shutdown scripts on both sides
+	for ini := 0; ini < 2; ini++ {
+		if !thorough && low >= 0 && ini != low {
+			continue
+		}
+		c := mk(ini, 1-ini)
+		c.Upfront, c.Bumps = true, short(ini)
+		if ini == 1 {
+			c.Restart = &RbfRestart{Initiator: 0, InitFee: c.InitFee, FirstOffer: 0}
+		}
+		out = append(out, c)
+	}
+	// (H) a frozen channel exactly at its thaw height
+	if thaw > 0 {
+		for ini := 0; ini < 2; ini++ {
+			c := mk(ini, ini)
+			c.MapperHeight, c.Bumps = thaw, short(ini)
+			out = append(out, c)
+		}
+	}
 	return out
 }
 
@@ -443,7 +812,8 @@ func rbfJobs(thorough bool) []job {
 				src := src
 				jobs = append(jobs, job{name: "rbf " + src.Name(), part: "rbf", f: func(h *harness) {
 					h.withPair(src, func(p *pair) {
-						cases := rbfCases(src.P, p.gross, p.dust, thorough)
+						thaw, _ := p.ch[0].AbsoluteThawHeight()
+						cases := rbfCases(src.P, p.gross, p.dust, thorough, thaw)
 						for i := range cases {
 							if h.expired() {
 								return
